@@ -130,9 +130,17 @@ def resolve(prog):
 
 
 def body(case):
+    from .c18 import drive
+
     schemas, docs, prog = case
+    return drive(history(schemas, docs), resolve(prog))
+
+
+def history(schemas, docs):
+    """Interpreter of a C08 history as a coroutine (one `op = yield` per call, None = end);
+    every invariant is checked after every call."""
     out = Outcome()
-    prog = resolve(prog)
+    prog = []
     try:
         W = World(schemas, docs)
     except Exception as e:
@@ -146,7 +154,13 @@ def body(case):
     cast_then_later = False
     cast_seen = False
     out.evals = 0
-    for i, op in enumerate(prog):
+    i = -1
+    while True:
+        op = yield
+        if op is None:
+            break
+        i += 1
+        prog.append(op)
         kind = op[0]
         W._last_cast = None
         try:
@@ -208,6 +222,88 @@ def body(case):
     return out
 
 
+def machine(seed, n, record):
+    """Hypothesis RuleBasedStateMachine over the same interpreter: shared schemas / rules /
+    documents are decoded from a tape at initialisation, every rule performs ONE call."""
+    import hypothesis as hy
+    from hypothesis import strategies as st
+    from hypothesis.stateful import RuleBasedStateMachine, rule, initialize, precondition, run_state_machine_as_test
+    from ..runner import hyp_settings
+
+    idx = st.integers(0, 255)
+    di = st.integers(0, 2)
+    flag = st.booleans()
+
+    class M(RuleBasedStateMachine):
+        def __init__(self):
+            super().__init__()
+            self.g = None
+            self.done = None
+            self.prog = []
+
+        @initialize(t=st.binary(min_size=3072, max_size=3072))
+        def setup(self, t):
+            schemas, docs, _ = gen_case(G.R(t))
+            self.static = (schemas, docs)
+            self.nrules = sum(len(s.rules) for s in schemas)
+            self.g = history(schemas, docs)
+            try:
+                next(self.g)
+            except StopIteration as e:
+                self.done = e.value
+
+        def send(self, op):
+            if self.done is not None or self.g is None:
+                return
+            self.prog.append(op)
+            try:
+                self.g.send(op)
+            except StopIteration as e:
+                self.done = e.value
+
+        @precondition(lambda self: getattr(self, "nrules", 0) > 0)
+        @rule(ri=idx, d=di, wrap=flag)
+        def filter(self, ri, d, wrap):
+            self.send(("filter", ri % self.nrules, d, wrap))
+
+        @precondition(lambda self: getattr(self, "nrules", 0) > 0)
+        @rule(ri=idx, d=di, wrap=flag, rp=flag, mod=st.sampled_from([None, "dtype", "first", "last", "all"]))
+        def get(self, ri, d, wrap, rp, mod):
+            self.send(("get", ri % self.nrules, d, wrap, rp, mod))
+
+        @precondition(lambda self: getattr(self, "nrules", 0) > 0)
+        @rule(ri=idx, d=di)
+        def dataget(self, ri, d):
+            self.send(("dataget", ri % self.nrules, d))
+
+        @precondition(lambda self: getattr(self, "nrules", 0) > 0)
+        @rule(ri=idx, d=di, wrap=flag)
+        def test(self, ri, d, wrap):
+            self.send(("test", ri % self.nrules, d, wrap))
+
+        @rule(si=idx, d=di, wrap=flag)
+        def validate(self, si, d, wrap):
+            self.send(("validate", si % len(self.static[0]), d, wrap))
+
+        @precondition(lambda self: len(self.prog) > 0)
+        @rule(k=idx)
+        def repeat(self, k):
+            self.send(self.prog[k % len(self.prog)])
+
+        def teardown(self):
+            if self.g is None:
+                return
+            if self.done is None:
+                try:
+                    self.g.send(None)
+                except StopIteration as e:
+                    self.done = e.value
+            if self.done is not None:
+                record(tuple(self.static) + (list(self.prog),), self.done)
+
+    run_state_machine_as_test(hy.seed(seed)(M), settings=hy.settings(hyp_settings(n), stateful_step_count=20))
+
+
 def body_threads(case):
     """Corroboration only: the same calls run concurrently on the shared objects."""
     import concurrent.futures as cf
@@ -249,7 +345,10 @@ def body_threads(case):
 
 
 def tests(tier):
-    ts = [TestSpec("history", gen_case, body, {"quick": 400, "thorough": 40000}, tape=3072, fuzz={"thorough": 15000})]
+    ts = [
+        TestSpec("history", gen_case, body, {"quick": 400, "thorough": 40000}, tape=3072, fuzz={"thorough": 15000}),
+        TestSpec("history-machine", gen_case, body, {"quick": 80, "thorough": 6000}, tape=3072, machine=machine),
+    ]
     if tier == "thorough":
         ts.append(TestSpec("threads", gen_case, body_threads, {"quick": 50, "thorough": 3000}, tape=3072))
     return ts
